@@ -5,7 +5,7 @@ From Coq Require Import ZifyBool.
 Ltac ssimpl :=
   unfold set_pool, set_ssup, set_modb, set_fee, set_treas, set_nbal, set_sbal, set_rew, set_undels, set_dels,
          set_comp, set_votes, set_clock in *;
-  cbn [time height slashed stake shares ssup modb fee treas nbal sbal rew undels last dels comp votes prev] in *.
+  cbn [time height slashed stake shares ssup modb fee treas nbal sbal rew undels last dels comp votes prev tsup] in *.
 
 (* ---------------------------------------------------------------- coin maps, pointwise *)
 Fixpoint csum (cs : coins) (d : Z) : Z :=
@@ -63,7 +63,7 @@ Lemma delegate_fields : forall c who amts s s', delegate c who amts s = Ok s' ->
   slashed s <= 0 /\
   s' = mkSt (time s) (height s) (slashed s) (cadds (stake s) amts) (cadds (shares s) pc) (cadds (ssup s) pc)
             (cadds (modb s) amts) (fee s) (treas s) (asubs (nbal s) who amts) (aadds (sbal s) who pc) (rew s)
-            (undels s) (last s) (zinsert who (dels s)) (comp s) (votes s) (prev s).
+            (undels s) (last s) (zinsert who (dels s)) (comp s) (votes s) (prev s) (cadds (tsup s) (pool_coins (slashed s) amts)).
 Proof.
   intros c who amts s s' H. unfold delegate in H.
   destruct (0 <? slashed s) eqn:E1; [discriminate|].
@@ -72,19 +72,21 @@ Proof.
   destruct (existsb _ _); [discriminate|]. inversion H; subst; clear H. split; [lia|reflexivity].
 Qed.
 
-Lemma undelegate_fields : forall c who amts s s', undelegate c who amts s = Ok s' ->
-  let pc := pool_coins (slashed s) amts in
-  all_gte (sbal s who) pc = true /\ all_gte (stake s) amts = true /\
+Lemma undelegate_fields : forall v c who amts s s', undelegate v c who amts s = Ok s' ->
+  exists pc, redeem_coins v s amts = Ok pc /\ all_gte (sbal s who) pc = true /\ all_gte (stake s) amts = true /\
   s' = mkSt (time s) (height s) (slashed s) (csubs (stake s) amts) (csubs (shares s) pc) (csubs (ssup s) pc)
             (modb s) (fee s) (treas s) (nbal s) (asubs (sbal s) who pc) (rew s)
             (undels s ++ [mkUndel (last s + 1) who (time s + c_unstake c) amts]) (last s + 1)
-            (zremove who (dels s)) (comp s) (votes s) (prev s).
+            (if v_prefix_ok v && existsb (fun d => 0 <? asubs (sbal s) who pc who d) (c_dens c)
+             then dels s else zremove who (dels s)) (comp s) (votes s) (prev s)
+            (if v_burn_registry v then csubs (tsup s) pc else tsup s).
 Proof.
-  intros c who amts s s' H. unfold undelegate in H.
-  destruct (existsb _ _); [discriminate|].
-  destruct (all_gte (sbal s who) _) eqn:E1; cbn [negb] in H; [|discriminate].
+  intros v c who amts s s' H. unfold undelegate in H. apply bind_ok in H. destruct H as (pc & R & H).
+  exists pc. split; [exact R|].
+  destruct (existsb _ pc); [discriminate|].
+  destruct (all_gte (sbal s who) pc) eqn:E1; cbn [negb] in H; [|discriminate].
   destruct (all_gte (stake s) amts) eqn:E2; cbn [negb] in H; [|discriminate].
-  destruct (all_gte (shares s) _); cbn [negb] in H; [|discriminate].
+  destruct (all_gte (shares s) pc); cbn [negb] in H; [|discriminate].
   inversion H; subst; clear H. auto.
 Qed.
 
@@ -93,9 +95,9 @@ Proof.
   intros c who amts s s' H I. apply delegate_fields in H. destruct H as [_ ->]. intro d. ssimpl.
   rewrite !cadds_val, I. reflexivity.
 Qed.
-Lemma undelegate_inv_supply : forall c who amts s s', undelegate c who amts s = Ok s' -> inv_supply s -> inv_supply s'.
+Lemma undelegate_inv_supply : forall v c who amts s s', undelegate v c who amts s = Ok s' -> inv_supply s -> inv_supply s'.
 Proof.
-  intros c who amts s s' H I. apply undelegate_fields in H. destruct H as (_ & _ & ->). intro d. ssimpl.
+  intros v c who amts s s' H I. apply undelegate_fields in H. destruct H as (pc & _ & _ & _ & ->). intro d. ssimpl.
   rewrite !csubs_val, I. reflexivity.
 Qed.
 
@@ -108,7 +110,7 @@ Qed.
 Definition frame (s s' : st) : Prop :=
   slashed s' = slashed s /\ stake s' = stake s /\ shares s' = shares s /\ ssup s' = ssup s /\
   undels s' = undels s /\ last s' = last s /\ votes s' = votes s /\ prev s' = prev s /\
-  time s' = time s /\ height s' = height s.
+  time s' = time s /\ height s' = height s /\ tsup s' = tsup s.
 Lemma frame_refl : forall s, frame s s. Proof. intro s. repeat split. Qed.
 Ltac framed := unfold frame; ssimpl; repeat split; reflexivity.
 
@@ -116,10 +118,11 @@ Definition is_tx (o : op) : bool :=
   match o with OBegin _ _ _ _ _ | OEnd | OSetVotes _ | OAdvance _ => false | _ => true end.
 
 Section Lift.
+Variable v : variant.
 Variable P : st -> Prop.
 Hypothesis P_frame : forall s s', frame s s' -> P s -> P s'.
 Hypothesis P_delegate : forall c who amts s s', delegate c who amts s = Ok s' -> P s -> P s'.
-Hypothesis P_undelegate : forall c who amts s s', undelegate c who amts s = Ok s' -> P s -> P s'.
+Hypothesis P_undelegate : forall c who amts s s', undelegate v c who amts s = Ok s' -> P s -> P s'.
 Hypothesis P_slash : forall c sl s s', slash c sl s = Ok s' -> P s -> P s'.
 Hypothesis P_pay : forall s who u, P s -> P (pay_undel s who u).
 
@@ -158,9 +161,9 @@ Proof.
   intros c rw s s' H I. unfold increase_pool_rewards in H. eapply autocompound_P; [exact H|].
   eapply P_frame; [|exact I]. framed.
 Qed.
-Lemma pay_validator_frame : forall c v vr s s', pay_validator c v vr s = Ok s' -> frame s s'.
+Lemma pay_validator_frame : forall c w vr s s', pay_validator c w vr s = Ok s' -> frame s s'.
 Proof.
-  intros c v vr s s' H. unfold pay_validator in H. destruct (cmap_is_zero _ _); [inversion H; apply frame_refl|].
+  intros c w vr s s' H. unfold pay_validator in H. destruct (cmap_is_zero _ _); [inversion H; apply frame_refl|].
   destruct (existsb _ _); [discriminate|]. inversion H; subst. framed.
 Qed.
 Lemma allocate_P : forall c infl s s', allocate c infl s = Ok s' -> P s -> P s'.
@@ -181,9 +184,9 @@ Proof.
   eapply P_frame; [|exact I2]. framed.
 Qed.
 
-Theorem step_tx_P : forall v c o s s', is_tx o = true -> step v c o s = Ok s' -> P s -> P s'.
+Theorem step_tx_P : forall c o s s', is_tx o = true -> step v c o s = Ok s' -> P s -> P s'.
 Proof.
-  intros v c o s s' T H I. destruct o; simpl in H; try discriminate T.
+  intros c o s s' T H I. destruct o; simpl in H; try discriminate T.
   - eapply P_delegate; eauto.
   - eapply P_undelegate; eauto.
   - unfold claim in H. destruct (find_undel id (undels s)); [|discriminate].
@@ -208,9 +211,9 @@ Qed.
 Hypothesis P_clock : forall s t h, P s -> P (set_clock s t h).
 Hypothesis P_votes : forall s vs p, P s -> P (set_votes s vs p).
 
-Theorem step_P : forall v c o s s', step v c o s = Ok s' -> P s -> P s'.
+Theorem step_P : forall c o s s', step v c o s = Ok s' -> P s -> P s'.
 Proof.
-  intros v c o s s' H I. destruct (is_tx o) eqn:T; [eapply step_tx_P; eauto|].
+  intros c o s s' H I. destruct (is_tx o) eqn:T; [eapply step_tx_P; eauto|].
   destruct o; try discriminate T; simpl in H.
   - inversion H; subst. apply P_clock. exact I.
   - inversion H; subst. apply P_votes. exact I.
@@ -220,14 +223,19 @@ Proof.
     + inversion H1; subst. apply P_clock. exact I.
   - inversion H; subst. apply P_votes. exact I.
 Qed.
-Lemma step_total_P : forall v c s o, P s -> P (step_total v c s o).
-Proof. intros v c s o I. unfold step_total. destruct (step v c o s) eqn:E; auto. eapply step_P; eauto. Qed.
-Theorem run_P : forall v c ops s, P s -> P (run v c ops s).
+Lemma step_total_P : forall c s o, P s -> P (step_total v c s o).
+Proof. intros c s o I. unfold step_total. destruct (step v c o s) eqn:E; auto. eapply step_P; eauto. Qed.
+Theorem run_P : forall c ops s, P s -> P (run v c ops s).
 Proof.
-  intros v c ops. unfold run. induction ops as [|o r IH]; intros s I; simpl; [exact I|].
+  intros c ops. unfold run. induction ops as [|o r IH]; intros s I; simpl; [exact I|].
   apply IH. apply step_total_P. exact I.
 Qed.
 End Lift.
+
+Ltac slash_inv H :=
+  unfold slash in H;
+  repeat match type of H with (if ?b then _ else _) = _ => destruct b; [discriminate|] end;
+  inversion H; subst; clear H.
 
 (* ================================================================ 1. share supply = pool book *)
 Theorem share_supply_eq_book : forall v c ops s, inv_supply s -> inv_supply (run v c ops s).
@@ -236,9 +244,23 @@ Proof.
   - intros s0 s1 (_ & _ & A & B & _) I d. rewrite A, B. apply I.
   - intros; eapply delegate_inv_supply; eauto.
   - intros; eapply undelegate_inv_supply; eauto.
-  - intros c0 sl s0 s1 H I. unfold slash in H.
-    repeat match type of H with (if ?b then _ else _) = _ => destruct b; [discriminate|] end.
-    inversion H; subst. intro d. ssimpl. apply I.
+  - intros c0 sl s0 s1 H I. slash_inv H. intro d. ssimpl. apply I.
+  - intros s0 who u I d. unfold pay_undel. ssimpl. apply I.
+  - intros s0 t h I d. ssimpl. apply I.
+  - intros s0 vs p I d. ssimpl. apply I.
+Qed.
+
+(* the token registry's record follows too -- when Undelegate burns through the tokens keeper *)
+Definition inv_registry (s : st) : Prop := forall d, tsup s d = shares s d.
+Theorem registry_supply_eq_book : forall v c ops s, v_burn_registry v = true -> inv_registry s -> inv_registry (run v c ops s).
+Proof.
+  intros v c ops s B. apply run_P.
+  - intros s0 s1 (_ & _ & A & _ & _ & _ & _ & _ & _ & _ & T) I d. rewrite A, T. apply I.
+  - intros c0 who amts s0 s1 H I. apply delegate_fields in H. destruct H as [_ ->]. intro d. ssimpl.
+    rewrite !cadds_val, I. reflexivity.
+  - intros c0 who amts s0 s1 H I. apply undelegate_fields in H. destruct H as (pc & _ & _ & _ & ->). intro d. ssimpl.
+    rewrite B. rewrite !csubs_val, I. reflexivity.
+  - intros c0 sl s0 s1 H I. slash_inv H. intro d. ssimpl. apply I.
   - intros s0 who u I d. unfold pay_undel. ssimpl. apply I.
   - intros s0 t h I d. ssimpl. apply I.
   - intros s0 vs p I d. ssimpl. apply I.
@@ -258,31 +280,83 @@ Proof.
   destruct (zmem 0 (c_dens c)); [rewrite pool_coin_unslashed in E|]; lia.
 Qed.
 
+Lemma ceil_div_exact : forall x S, 0 <= x -> 0 < S -> ceil_div (x * S) S = x.
+Proof.
+  intros x S X HS. unfold ceil_div. rewrite Z.quot_div_nonneg by nia.
+  symmetry. apply Z.div_unique with (r := S - 1); lia.
+Qed.
+Lemma ceil_div_bounds : forall a b, 0 <= a -> 0 < b -> a <= b * ceil_div a b /\ b * ceil_div a b < a + b.
+Proof.
+  intros a b A B. unfold ceil_div. rewrite Z.quot_div_nonneg by lia.
+  pose proof (Z.div_mod (a + (b - 1)) b ltac:(lia)) as DM.
+  pose proof (Z.mod_pos_bound (a + (b - 1)) b B) as MB. lia.
+Qed.
+
+Lemma redeem_unslashed : forall v s amts pc, slashed s = 0 -> (forall d, stake s d = shares s d) ->
+  redeem_coins v s amts = Ok pc -> forall d, csum pc d = csum amts d.
+Proof.
+  intros v s amts. induction amts as [|[e x] r IH]; intros pc Z0 I H d; simpl in H.
+  - inversion H; subst. reflexivity.
+  - destruct (v_redeem_rule v =? 0).
+    + apply bind_ok in H. destruct H as (t & Ht & H). inversion H; subst. simpl.
+      rewrite (IH t Z0 I Ht d), Z0, pool_coin_unslashed. reflexivity.
+    + destruct ((x <? 0) || (stake s e <=? 0)) eqn:G; [discriminate|].
+      apply bind_ok in H. destruct H as (t & Ht & H). inversion H; subst. simpl.
+      rewrite (IH t Z0 I Ht d). rewrite <- (I e). rewrite ceil_div_exact by lia. reflexivity.
+Qed.
+
 Theorem unslashed_one_to_one : forall v c ops s, inv_unslashed s -> inv_unslashed (run v c ops s).
 Proof.
   intros v c ops s. apply run_P.
   - intros s0 s1 (A & B & C & _) I Z0 d. rewrite B, C. apply I. congruence.
   - intros c0 who amts s0 s1 H I. apply delegate_fields in H. destruct H as [_ ->]. intros Z0 d. ssimpl.
     rewrite Z0, !cadds_val, csum_pool_coins_unslashed, I by assumption. reflexivity.
-  - intros c0 who amts s0 s1 H I. apply undelegate_fields in H. destruct H as (_ & _ & ->). intros Z0 d. ssimpl.
-    rewrite Z0, !csubs_val, csum_pool_coins_unslashed, I by assumption. reflexivity.
+  - intros c0 who amts s0 s1 H I. apply undelegate_fields in H. destruct H as (pc & R & _ & _ & ->). intros Z0 d. ssimpl.
+    rewrite !csubs_val, (redeem_unslashed _ _ _ _ Z0 (I Z0) R), I by assumption. reflexivity.
   - intros c0 sl s0 s1 H I Z0. apply slash_nonzero in H. destruct H; congruence.
   - intros s0 who u I Z0 d. unfold pay_undel in *. ssimpl. apply I. assumption.
   - intros s0 t h I Z0 d. ssimpl. apply I. assumption.
   - intros s0 vs p I Z0 d. ssimpl. apply I. assumption.
 Qed.
 
-(* the statement of the property: redeeming stake x of denom d burns shares b with
-   x <= stake * b / shares (+ 1/2 unit of rounding) *)
+(* THE statement of the property: redeeming stake x of denom d burns b shares with x*shares <= stake*b
+   (never more than that fraction of the pool's remaining stake) -- and not a whole share more than that *)
+Fixpoint fair (s : st) (amts pc : coins) : Prop :=
+  match amts, pc with
+  | [], [] => True
+  | (d, x) :: r, (d', b) :: r' =>
+      d = d' /\ x * shares s d <= stake s d * b /\ stake s d * b < x * shares s d + stake s d /\ fair s r r'
+  | _, _ => False
+  end.
+
+(* full strength, for the pro-rata conversion (redeem rule 1): ANY state -- after any number of slashes *)
+Theorem redeem_pro_rata : forall v c who amts s s',
+  v_redeem_rule v = 1 -> (forall d, 0 <= shares s d) ->
+  undelegate v c who amts s = Ok s' ->
+  exists pc, redeem_coins v s amts = Ok pc /\ fair s amts pc /\
+             (forall d, sbal s' who d = sbal s who d - csum pc d) /\ (forall d, stake s' d = stake s d - csum amts d).
+Proof.
+  intros v c who amts s s' R NN H. apply undelegate_fields in H. destruct H as (pc & RC & _ & _ & ->).
+  exists pc. split; [exact RC|]. split.
+  - clear who c. revert pc RC. induction amts as [|[d x] r IH]; intros pc RC; simpl in RC.
+    + inversion RC. exact I.
+    + rewrite R in RC. change (1 =? 0) with false in RC. cbv iota in RC.
+      destruct ((x <? 0) || (stake s d <=? 0)) eqn:G; [discriminate|].
+      apply bind_ok in RC. destruct RC as (t & Ht & RC). inversion RC; subst. simpl.
+      specialize (NN d). destruct (ceil_div_bounds (x * shares s d) (stake s d)) as [B1 B2]; [nia|lia|].
+      repeat split; auto; lia.
+  - split; intro d; ssimpl; [rewrite asubs_val, Z.eqb_refl; reflexivity | apply csubs_val].
+Qed.
+
+(* the old conversion (redeem rule 0, GetPoolCoins): x <= stake*b/shares (+1/2) with b = round(x*(1-slashed)) *)
 Definition pro_rata_at (s : st) (amts : coins) : Prop :=
   forall d x, In (d, x) amts ->
     2 * x * shares s d <= 2 * stake s d * pool_coin x (slashed s) + shares s d.
 
-Theorem redeem_pro_rata_unslashed : forall c who amts s s',
-  inv_unslashed s -> slashed s = 0 -> (forall d, 0 <= shares s d) ->
-  undelegate c who amts s = Ok s' -> pro_rata_at s amts.
+Theorem redeem_pro_rata_unslashed : forall amts s,
+  inv_unslashed s -> slashed s = 0 -> (forall d, 0 <= shares s d) -> pro_rata_at s amts.
 Proof.
-  intros c who amts s s' I Z0 NN _ d x _. rewrite Z0, pool_coin_unslashed, (I Z0 d).
+  intros amts s I Z0 NN d x _. rewrite Z0, pool_coin_unslashed, (I Z0 d).
   specialize (NN d). nia.
 Qed.
 
@@ -317,8 +391,6 @@ Proof.
   intro O. rewrite O in E2. simpl in E2. lia.
 Qed.
 
-(* with the owner comparison: only the account that undelegated, only after the expiry, exactly the recorded
-   amount from the module account, and the record is gone *)
 Theorem claim_only_by_owner_after_expiry : forall v who id s s',
   v_owner_check v = true -> claim v who id s = Ok s' ->
   exists u, find_undel id (undels s) = Some u /\ u_owner u = who /\ u_expiry u <= time s /\
@@ -333,8 +405,15 @@ Proof.
   - unfold pay_undel. ssimpl. apply find_undel_some in F. destruct F as [_ <-]. apply find_undel_removed.
 Qed.
 
-(* claimed once: a record id that is gone (claimed) and not above the id counter never comes back, whatever
-   happens afterwards -- so a second claim of the same id is refused *)
+(* the record a successful Undelegate creates: owner = the redeemer, amount = what was redeemed, expiry = now +
+   the unstaking period, a fresh id; nothing is paid at that moment *)
+Theorem undelegate_records : forall v c who amts s s', undelegate v c who amts s = Ok s' ->
+  undels s' = undels s ++ [mkUndel (last s + 1) who (time s + c_unstake c) amts] /\ last s' = last s + 1 /\
+  nbal s' = nbal s /\ modb s' = modb s.
+Proof.
+  intros v c who amts s s' H. apply undelegate_fields in H. destruct H as (pc & _ & _ & _ & ->). ssimpl. repeat split.
+Qed.
+
 Definition gone (id : Z) (s : st) : Prop :=
   id <= last s /\ find_undel id (undels s) = None.
 Lemma find_undel_app_none : forall id l u, find_undel id l = None -> u_id u <> id -> find_undel id (l ++ [u]) = None.
@@ -348,11 +427,9 @@ Proof.
   intros id v c ops s. apply run_P.
   - intros s0 s1 (_ & _ & _ & _ & A & B & _) [L F]. split; [rewrite B|rewrite A]; assumption.
   - intros c0 who amts s0 s1 H [L F]. apply delegate_fields in H. destruct H as [_ ->]. split; ssimpl; assumption.
-  - intros c0 who amts s0 s1 H [L F]. apply undelegate_fields in H. destruct H as (_ & _ & ->). split; ssimpl; [lia|].
+  - intros c0 who amts s0 s1 H [L F]. apply undelegate_fields in H. destruct H as (pc & _ & _ & _ & ->). split; ssimpl; [lia|].
     apply find_undel_app_none; [assumption|]. simpl. lia.
-  - intros c0 sl s0 s1 H [L F]. unfold slash in H.
-    repeat match type of H with (if ?b then _ else _) = _ => destruct b; [discriminate|] end.
-    inversion H; subst. split; ssimpl; assumption.
+  - intros c0 sl s0 s1 H [L F]. slash_inv H. split; ssimpl; auto.
   - intros s0 who u [L F]. unfold pay_undel. split; ssimpl; [assumption|]. apply find_undel_none_filter. assumption.
   - intros s0 t h [L F]. split; ssimpl; assumption.
   - intros s0 vs p [L F]. split; ssimpl; assumption.
@@ -364,11 +441,9 @@ Proof.
   intros v c ops s. apply run_P.
   - intros s0 s1 (_ & _ & _ & _ & A & B & _) I u. rewrite A, B. apply I.
   - intros c0 who amts s0 s1 H I. apply delegate_fields in H. destruct H as [_ ->]. intro u. ssimpl. apply I.
-  - intros c0 who amts s0 s1 H I. apply undelegate_fields in H. destruct H as (_ & _ & ->). intros u U. ssimpl.
+  - intros c0 who amts s0 s1 H I. apply undelegate_fields in H. destruct H as (pc & _ & _ & _ & ->). intros u U. ssimpl.
     apply in_app_or in U. destruct U as [U|[U|[]]]; [apply I in U; lia|subst u; simpl; lia].
-  - intros c0 sl s0 s1 H I. unfold slash in H.
-    repeat match type of H with (if ?b then _ else _) = _ => destruct b; [discriminate|] end.
-    inversion H; subst. intro u. ssimpl. apply I.
+  - intros c0 sl s0 s1 H I. slash_inv H. intro u. ssimpl. apply I.
   - intros s0 who u I x X. unfold pay_undel in *. ssimpl. unfold remove_undel in X. apply filter_In in X. apply I. tauto.
   - intros s0 t h I u. ssimpl. apply I.
   - intros s0 vs p I u. ssimpl. apply I.
@@ -386,6 +461,25 @@ Proof.
   unfold claim. rewrite G. eexists. reflexivity.
 Qed.
 
+(* a partial redemption leaves the redeemer a delegator of the pool (prefix repaired) *)
+Lemma zremove_other : forall x y l, x <> y -> In x l -> In x (zremove y l).
+Proof. intros x y l N I. unfold zremove. apply filter_In. split; [exact I|]. lia. Qed.
+Theorem partial_undelegate_keeps_delegator : forall v c who amts s s',
+  v_prefix_ok v = true -> undelegate v c who amts s = Ok s' ->
+  In who (dels s) -> (exists d, In d (c_dens c) /\ 0 < sbal s' who d) -> In who (dels s').
+Proof.
+  intros v c who amts s s' PO H D (d & Dd & B). apply undelegate_fields in H. destruct H as (pc & _ & _ & _ & ->).
+  ssimpl. rewrite PO. cbn [andb].
+  replace (existsb (fun d0 => 0 <? asubs (sbal s) who pc who d0) (c_dens c)) with true; [exact D|].
+  symmetry. apply existsb_exists. exists d. split; [exact Dd|lia].
+Qed.
+Theorem others_stay_delegators : forall v c who amts s s' a,
+  undelegate v c who amts s = Ok s' -> a <> who -> In a (dels s) -> In a (dels s').
+Proof.
+  intros v c who amts s s' a H N D. apply undelegate_fields in H. destruct H as (pc & _ & _ & _ & ->). ssimpl.
+  destruct (_ && _); [exact D|apply zremove_other; assumption].
+Qed.
+
 (* ================================================================ 4. per-block allocation *)
 Theorem remainder_to_treasury : forall c infl s s', allocate c infl s = Ok s' -> forall d, treas s' d = fee s' d.
 Proof.
@@ -395,39 +489,57 @@ Qed.
 
 (* -- vote bookkeeping *)
 Definition clock_votes (V : list (Z * Z)) (H : Z) (s : st) : Prop := votes s = V /\ height s = H.
+Lemma clock_votes_tx : forall v c o s s' V H, is_tx o = true -> step v c o s = Ok s' -> clock_votes V H s -> clock_votes V H s'.
+Proof.
+  intros v c o s s' V H T E. eapply (step_tx_P v (clock_votes V H)); [ | | | | | exact T | exact E].
+  - intros s0 s1 (_ & _ & _ & _ & _ & _ & A & _ & _ & B & _) [X Y]. split; congruence.
+  - intros c0 who amts s0 s1 H0 [X Y]. apply delegate_fields in H0. destruct H0 as [_ ->]. split; ssimpl; assumption.
+  - intros c0 who amts s0 s1 H0 [X Y]. apply undelegate_fields in H0. destruct H0 as (pc & _ & _ & _ & ->). split; ssimpl; assumption.
+  - intros c0 sl s0 s1 H0 [X Y]. slash_inv H0. split; ssimpl; auto.
+  - intros s0 who u [X Y]. unfold pay_undel. split; ssimpl; assumption.
+Qed.
 Lemma txs_keep_votes : forall v c ops s, (forall o, In o ops -> is_tx o = true) ->
   votes (run v c ops s) = votes s /\ height (run v c ops s) = height s.
 Proof.
   intros v c ops. unfold run. induction ops as [|o r IH]; intros s T; simpl; [split; reflexivity|].
   assert (K : clock_votes (votes s) (height s) (step_total v c s o)).
   { unfold step_total. destruct (step v c o s) eqn:E; try (split; reflexivity).
-    eapply (step_tx_P (clock_votes (votes s) (height s))); [ | | | | | | exact E | split; reflexivity].
-    - intros s0 s1 (_ & _ & _ & _ & _ & _ & A & _ & _ & B) [X Y]. split; congruence.
-    - intros c0 who amts s0 s1 H [X Y]. apply delegate_fields in H. destruct H as [_ ->]. split; ssimpl; assumption.
-    - intros c0 who amts s0 s1 H [X Y]. apply undelegate_fields in H. destruct H as (_ & _ & ->). split; ssimpl; assumption.
-    - intros c0 sl s0 s1 H [X Y]. unfold slash in H.
-      repeat match type of H with (if ?b then _ else _) = _ => destruct b; [discriminate|] end.
-      inversion H; subst. split; ssimpl; assumption.
-    - intros s0 who u [X Y]. unfold pay_undel. split; ssimpl; assumption.
-    - apply T. left. reflexivity. }
+    eapply clock_votes_tx; [apply T; left; reflexivity|exact E|split; reflexivity]. }
   destruct K as [K1 K2]. destruct (IH (step_total v c s o)) as [A B]; [intros; apply T; right; assumption|].
   split; congruence.
 Qed.
 
-(* what the begin blocker leaves in the vote store is inside the window *)
-Lemma begin_block_votes_fresh : forall c dt commit p possible infl s s1,
-  begin_block c dt commit p possible infl s = Ok s1 ->
+Lemma allocate_clock_votes : forall c infl s s', allocate c infl s = Ok s' -> votes s' = votes s /\ height s' = height s.
+Proof.
+  intros c infl s s' H.
+  assert (K : clock_votes (votes s) (height s) s').
+  { eapply (allocate_P (clock_votes (votes s) (height s))); [ | | exact H | split; reflexivity].
+    - intros s0 s1 (_ & _ & _ & _ & _ & _ & A & _ & _ & B & _) [X Y]. split; congruence.
+    - intros c0 who amts a b H0 [X Y]. apply delegate_fields in H0. destruct H0 as [_ ->]. split; ssimpl; assumption. }
+  exact K.
+Qed.
+
+(* the votes in the store after the begin blocker: the old ones still inside the window, plus one at the new
+   height for every validator of the last commit that is RECORDED (all of them / only the signers) *)
+Lemma begin_block_votes : forall v c dt commit p possible infl s s1,
+  begin_block v c dt commit p possible infl s = Ok s1 ->
+  height s1 = height s + 1 /\
+  votes s1 = filter (fun q => negb (snd q + c_snap c <=? height s + 1)) (add_votes (recorded v commit) (height s + 1) (votes s)).
+Proof.
+  intros v c dt commit p possible infl s s1 H. unfold begin_block in H. apply bind_ok in H.
+  destruct H as (s0 & H0 & H). inversion H; subst; clear H. ssimpl.
+  assert (K : votes s0 = votes s /\ height s0 = height s + 1).
+  { destruct (_ && possible).
+    - apply allocate_clock_votes in H0. ssimpl. exact H0.
+    - inversion H0; subst. ssimpl. split; reflexivity. }
+  destruct K as [K1 K2]. rewrite K1. split; [exact K2|reflexivity].
+Qed.
+Lemma begin_block_votes_fresh : forall v c dt commit p possible infl s s1,
+  begin_block v c dt commit p possible infl s = Ok s1 ->
   height s1 = height s + 1 /\ forall q, In q (votes s1) -> height s1 < snd q + c_snap c.
 Proof.
-  intros c dt commit p possible infl s s1 H. unfold begin_block in H. apply bind_ok in H.
-  destruct H as (s0 & H0 & H). inversion H; subst; clear H. ssimpl.
-  assert (HH : height s0 = height s + 1).
-  { destruct (_ && possible).
-    - eapply (allocate_P (fun x => height x = height s + 1)); [ | | exact H0 | ssimpl; reflexivity].
-      + intros a b (_ & _ & _ & _ & _ & _ & _ & _ & _ & B) X. congruence.
-      + intros c0 who amts a b H X. apply delegate_fields in H. destruct H as [_ ->]. ssimpl. assumption.
-    - inversion H0; subst. ssimpl. reflexivity. }
-  split; [exact HH|]. intros q Q. apply filter_In in Q. destruct Q as [_ Q]. rewrite HH. lia.
+  intros v c dt commit p possible infl s s1 H. apply begin_block_votes in H. destruct H as [HH V].
+  split; [exact HH|]. intros q Q. rewrite V in Q. apply filter_In in Q. destruct Q as [_ Q]. rewrite HH. lia.
 Qed.
 
 Lemma filter_fresh_nil : forall snap h (l : list (Z * Z)),
@@ -439,10 +551,10 @@ Proof.
   apply IH. intros x X. apply B. right. assumption.
 Qed.
 
-(* as the tree is (end rule 0): after begin block, any transactions, end block, the vote store is EMPTY *)
+(* the tree before c0fbb8a (end rule 0): after begin block, any transactions, end block, the vote store is EMPTY *)
 Theorem fresh_votes_wiped : forall v c dt commit p possible infl txs s s1 s3,
   v_end_rule v = 0 ->
-  begin_block c dt commit p possible infl s = Ok s1 ->
+  begin_block v c dt commit p possible infl s = Ok s1 ->
   (forall o, In o txs -> is_tx o = true) ->
   end_block v c (run v c txs s1) = Ok s3 ->
   votes s3 = [].
@@ -460,15 +572,15 @@ Proof. intro x. unfold dec_mul_round, round_int, dec_of_int. simpl. rewrite chop
 Lemma forallb_all : forall (f : Z -> bool) l, (forall x, f x = true) -> forallb f l = true.
 Proof. intros f l H. induction l; simpl; [reflexivity|]. rewrite H. assumption. Qed.
 
-(* ... and with an empty vote store the allocation credits NOBODY: no validator payment, no delegator
-   reward record, no auto-compounded stake; everything (fees + inflation) is left to the treasury *)
+(* with NO vote of the previous proposer in the store the allocation credits nobody: no validator payment, no
+   delegator reward record, no auto-compounded stake; fees + inflation are all left to the treasury *)
 Theorem nobody_credited_without_votes : forall c infl s s',
-  votes s = [] -> allocate c infl s = Ok s' ->
+  count_votes (prev s) (votes s) = 0 -> allocate c infl s = Ok s' ->
   nbal s' = nbal s /\ rew s' = rew s /\ stake s' = stake s /\
   (forall d, treas s' d = fee s d + (if d =? 0 then infl else 0)).
 Proof.
   intros c infl s s' V H. unfold allocate in H. destruct (c_snap c =? 0) eqn:SN; [discriminate|].
-  cbv zeta in H. rewrite V in H. change (count_votes (prev s) []) with 0 in H.
+  cbv zeta in H. rewrite V in H.
   assert (FC : forall d, fee_cut c s 0 d = 0) by (intro d; unfold fee_cut; rewrite Z.mul_0_r; apply Z.quot_0_l; lia).
   assert (VR : forall d, val_fee_reward c s 0 d = 0) by (intro d; unfold val_fee_reward; rewrite FC, dec_mul_round_0; reflexivity).
   assert (PR : forall d, pool_fee_reward c s 0 d = 0) by (intro d; unfold pool_fee_reward; rewrite FC, dec_mul_round_0; reflexivity).
@@ -486,8 +598,7 @@ Proof.
     (repeat split; try reflexivity; intro d; unfold cadd; destruct (d =? 0); lia).
 Qed.
 
-(* with the repaired end rule (1: only expired votes are deleted) the vote of a validator of the last commit
-   survives the block, so it counts at the next allocation *)
+(* -- which validators get a vote *)
 Lemma add_votes_in : forall p h commit vs, In (p, h) vs \/ In p commit -> In (p, h) (add_votes commit h vs).
 Proof.
   unfold add_votes. induction commit as [|x r IH]; intros vs H; simpl.
@@ -500,26 +611,70 @@ Proof.
       * apply in_or_app. right. left. reflexivity.
     + right. exact H.
 Qed.
-Lemma begin_block_vote_in : forall c dt commit p possible infl s s1 q,
-  1 <= c_snap c -> begin_block c dt commit p possible infl s = Ok s1 -> In q commit -> In (q, height s1) (votes s1).
+Lemma add_votes_only : forall q commit h vs, In q (add_votes commit h vs) -> In q vs \/ (snd q = h /\ In (fst q) commit).
 Proof.
-  intros c dt commit p possible infl s s1 q SN B Q.
-  pose proof (begin_block_votes_fresh _ _ _ _ _ _ _ _ B) as [HH _]. rewrite HH.
-  unfold begin_block in B. apply bind_ok in B. destruct B as (s0 & _ & B). inversion B; subst; clear B. ssimpl.
-  apply filter_In. split; [apply add_votes_in; right; exact Q|]. simpl. lia.
+  unfold add_votes. intros q commit h. induction commit as [|x r IH]; intros vs H; simpl in H; [left; exact H|].
+  apply IH in H. destruct H as [H|[H1 H2]].
+  - destruct (existsb _ vs); [left; exact H|]. apply in_app_or in H. destruct H as [H|[H|[]]]; [left; exact H|].
+    subst q. right. split; [reflexivity|left; reflexivity].
+  - right. split; [exact H1|right; exact H2].
+Qed.
+Lemma recorded_in : forall v commit q, In q (recorded v commit) <->
+  exists sg, In (q, sg) commit /\ (v_signers_only v = false \/ sg = true).
+Proof.
+  intros v commit q. unfold recorded. rewrite in_map_iff. split.
+  - intros ([a sg] & E & F). simpl in E. subst a. apply filter_In in F. destruct F as [F G]. simpl in G.
+    exists sg. split; [exact F|]. destruct (v_signers_only v); [right; simpl in G; exact G|left; reflexivity].
+  - intros (sg & F & G). exists (q, sg). split; [reflexivity|]. apply filter_In. split; [exact F|]. simpl.
+    destruct G as [G|G]; rewrite G; [reflexivity|apply orb_true_r].
+Qed.
+
+(* full strength, signers only: a vote at the new height exists ONLY for validators that signed the last block *)
+Theorem votes_only_for_signers : forall v c dt commit p possible infl s s1 q,
+  v_signers_only v = true ->
+  begin_block v c dt commit p possible infl s = Ok s1 ->
+  In (q, height s1) (votes s1) -> (forall w, In w (votes s) -> snd w <= height s) ->
+  In (q, true) commit.
+Proof.
+  intros v c dt commit p possible infl s s1 q SO B I OLD. apply begin_block_votes in B. destruct B as [HH V].
+  rewrite V in I. apply filter_In in I. destruct I as [I _]. apply add_votes_only in I. destruct I as [I|[_ I]].
+  - apply OLD in I. simpl in I. lia.
+  - simpl in I. apply recorded_in in I. destruct I as (sg & F & [G|G]); [congruence|subst sg; exact F].
+Qed.
+
+(* with the repaired end rule (1) the vote of a recorded validator survives the block *)
+Lemma begin_block_vote_in : forall v c dt commit p possible infl s s1 q,
+  1 <= c_snap c -> begin_block v c dt commit p possible infl s = Ok s1 -> In q (recorded v commit) ->
+  In (q, height s1) (votes s1).
+Proof.
+  intros v c dt commit p possible infl s s1 q SN B Q. apply begin_block_votes in B. destruct B as [HH V].
+  rewrite V, HH. apply filter_In. split; [apply add_votes_in; right; exact Q|]. simpl. lia.
 Qed.
 Theorem fresh_vote_survives_block : forall v c dt commit p possible infl txs s s1 s3 q,
   v_end_rule v = 1 -> 1 <= c_snap c ->
-  begin_block c dt commit p possible infl s = Ok s1 ->
-  In q commit ->
+  begin_block v c dt commit p possible infl s = Ok s1 ->
+  In (q, true) commit ->
   (forall o, In o txs -> is_tx o = true) ->
   end_block v c (run v c txs s1) = Ok s3 ->
-  1 <= count_votes q (votes s3).
+  1 <= count_votes q (votes s3) /\ prev s3 = p.
 Proof.
   intros v c dt commit p possible infl txs s s1 s3 q R SN B Q T E.
-  pose proof (begin_block_vote_in _ _ _ _ _ _ _ _ _ SN B Q) as IN.
+  assert (QR : In q (recorded v commit)) by (apply recorded_in; exists true; split; [exact Q|right; reflexivity]).
+  pose proof (begin_block_vote_in _ _ _ _ _ _ _ _ _ _ SN B QR) as IN.
+  assert (PV : prev (run v c txs s1) = p).
+  { assert (P1 : prev s1 = p).
+    { unfold begin_block in B. apply bind_ok in B. destruct B as (s0 & _ & B). inversion B; subst. ssimpl. reflexivity. }
+    rewrite <- P1. clear - T. unfold run. revert s1. induction txs as [|o r IH]; intro s1; simpl; [reflexivity|].
+    rewrite IH by (intros; apply T; right; assumption).
+    unfold step_total. destruct (step v c o s1) eqn:E; try reflexivity.
+    eapply (step_tx_P v (fun x => prev x = prev s1)); [ | | | | | apply T; left; reflexivity | exact E | reflexivity].
+    - intros s0 s2 (_ & _ & _ & _ & _ & _ & _ & A & _) X. congruence.
+    - intros c0 who amts s0 s2 H0 X. apply delegate_fields in H0. destruct H0 as [_ ->]. ssimpl. assumption.
+    - intros c0 who amts s0 s2 H0 X. apply undelegate_fields in H0. destruct H0 as (pc & _ & _ & _ & ->). ssimpl. assumption.
+    - intros c0 sl s0 s2 H0 X. slash_inv H0. ssimpl. auto.
+    - intros s0 who u X. unfold pay_undel. ssimpl. assumption. }
   destruct (txs_keep_votes v c txs s1 T) as [KV KH].
-  unfold end_block in E. inversion E; subst; clear E. ssimpl. rewrite KV, KH, R.
+  unfold end_block in E. inversion E as [E']. clear E. subst s3. ssimpl. split; [|exact PV]. rewrite KV, KH, R.
   unfold count_votes.
   assert (IN2 : In (q, height s1) (filter (fun p0 => fst p0 =? q)
             (filter (fun p0 => negb (end_deletes 1 (snd p0) (c_snap c) (height s1))) (votes s1)))).
@@ -528,74 +683,174 @@ Proof.
   destruct (filter _ (filter _ (votes s1))); [destruct IN2|]. simpl. lia.
 Qed.
 
-(* ================================================================ witnesses (replayed on the real code by the harness) *)
+(* -- the validator's own reward *)
+Lemma dec_mul_round_eq : forall x v, dec_mul_round x v = chop_round (x * v).
+Proof.
+  intros x v. unfold dec_mul_round, round_int, dec_of_int. replace (x * PREC * v) with ((x * v) * PREC) by ring.
+  rewrite chop_round_mult. reflexivity.
+Qed.
+Lemma chop_round_ge_1 : forall y, PREC <= y -> 1 <= chop_round y.
+Proof.
+  intros y Y. pose proof PREC_pos as HP. unfold chop_round. replace (y <? 0) with false by lia.
+  unfold chop_round_pos. assert (1 <= y / PREC) by (apply Z.div_le_lower_bound; lia).
+  repeat match goal with |- context [if ?b then _ else _] => destruct b end; lia.
+Qed.
+
+Lemma autocompound_one_nbal : forall c a s s', autocompound_one c a s = Ok s' -> forall b d, nbal s' b d = nbal s b d.
+Proof.
+  intros c a s s' H b d. unfold autocompound_one in H.
+  destruct (comp s a) as [[all cds] lastx].
+  destruct (height s <? lastx + c_autoint c); [inversion H; subst; reflexivity|].
+  apply bind_ok in H. destruct H as (auto & _ & H).
+  destruct auto as [|x auto'].
+  - inversion H; subst. destruct all; ssimpl; reflexivity.
+  - cbv zeta in H.
+    destruct (all_gte _ (x :: auto')); cbn [negb] in H; [|discriminate].
+    destruct (delegate c a (x :: auto') _) eqn:D; try discriminate.
+    inversion H; subst s'. apply delegate_fields in D. destruct D as [_ ->]. ssimpl.
+    rewrite asubs_val, aadds_val. destruct all; ssimpl; lia.
+Qed.
+Lemma autocompound_nbal : forall c l s s', autocompound c l s = Ok s' -> forall b d, nbal s' b d = nbal s b d.
+Proof.
+  induction l as [|a r IH]; intros s s' H b d; simpl in H.
+  - inversion H; subst; reflexivity.
+  - apply bind_ok in H. destruct H as (s1 & H1 & H2). rewrite (IH _ _ H2), (autocompound_one_nbal _ _ _ _ H1). reflexivity.
+Qed.
+
+(* full strength at the allocation: a previous proposer with a positive signing record in the store, and a fee cut
+   worth at least one unit of validator share in some denom, is paid a POSITIVE amount in that denom *)
+Theorem signing_proposer_credited : forall c infl s s' d,
+  is_validator (prev s) = true -> In d (c_dens c) ->
+  PREC <= fee_cut c s (count_votes (prev s) (votes s)) d * Z.min (c_vfs c) PREC ->
+  allocate c infl s = Ok s' ->
+  nbal s (val_acct (prev s)) d < nbal s' (val_acct (prev s)) d.
+Proof.
+  intros c infl s s' d IV Dd CUT H. unfold allocate in H. destruct (c_snap c =? 0); [discriminate|].
+  cbv zeta in H. rewrite IV in H. set (power := count_votes (prev s) (votes s)) in *.
+  assert (VR : 1 <= val_fee_reward c s power d).
+  { unfold val_fee_reward. rewrite dec_mul_round_eq. pose proof (chop_round_ge_1 _ CUT).
+    destruct (0 <? chop_round _) eqn:E; lia. }
+  apply bind_ok in H. destruct H as (s2 & H2 & H). inversion H; subst s'; clear H. ssimpl.
+  assert (PAY : forall vr sx sy, 1 <= vr d -> (forall b e, nbal sx b e = nbal s b e) ->
+                pay_validator c (prev s) vr sx = Ok sy -> nbal s (val_acct (prev s)) d < nbal sy (val_acct (prev s)) d).
+  { intros vr sx sy V N P. unfold pay_validator in P.
+    destruct (cmap_is_zero (c_dens c) vr) eqn:Zr.
+    - unfold cmap_is_zero in Zr. rewrite forallb_forall in Zr. specialize (Zr d Dd). lia.
+    - destruct (existsb _ _); [discriminate|]. inversion P; subst. ssimpl. unfold aset, cplus.
+      rewrite Z.eqb_refl, N. lia. }
+  destruct (has_pool (prev s)).
+  - destruct (_ || _) eqn:NEG; [discriminate|]. apply bind_ok in H2. destruct H2 as (s1 & H1 & H2).
+    eapply PAY; [ | | exact H2].
+    + unfold cadd. destruct (d =? 0); lia.
+    + intros b e. destruct (cmap_is_zero _ _).
+      * inversion H1; subst. ssimpl. reflexivity.
+      * unfold increase_pool_rewards in H1. rewrite (autocompound_nbal _ _ _ _ H1). ssimpl. reflexivity.
+  - eapply PAY; [exact VR | | exact H2]. intros b e. ssimpl. reflexivity.
+Qed.
+
+(* ================================================================ witnesses (each is a scripted history of the harness,
+   replayed on the real code) *)
 Definition demo_cfg : cfg :=
   mkCfg [(0, (true, 1, HALF)); (1, (true, 1, HALF))] [0; 1] 604800 HALF 10000000000000000 4 3 [0; 1; 5; 100; 101].
 Definition demo_init : st :=
   mkSt 1700000000 10 0 czero czero czero czero czero czero
        (fun a _ => if a <? 6 then 1000000 else 0) (fun _ => czero) (fun _ => czero)
-       [] 0 [] (fun _ => (false, [], 0)) [] 0.
-Definition as_is : variant := mkVariant false 0.       (* the tree before the two repairs *)
-Definition repaired : variant := mkVariant true 1.
+       [] 0 [] (fun _ => (false, [], 0)) [] 0 czero.
+Definition tree_r0 : variant := mkVariant false 0 false false 0 false.   (* the tree before 86992ce / c0fbb8a *)
+Definition tree_r1 : variant := mkVariant true 1 false false 0 false.    (* with the claim-owner and end-blocker repairs *)
+Definition tree_r2 : variant := mkVariant true 1 true true 1 false.      (* + signers-only votes, "v<id>/" prefix, pro-rata redemption *)
 
-(* two equal delegators, slash 1/2: the first one redeems the WHOLE remaining stake for HALF of his shares;
-   the other's 100 shares are then backed by nothing *)
-Definition slashed_pool : st :=
-  run as_is demo_cfg [ODelegate 0 [(0, 100)]; ODelegate 1 [(0, 100)]; OSlash HALF] demo_init.
+(* two equal delegators, slash 1/2: the first one redeems the WHOLE remaining stake for HALF of his shares *)
+Definition slashed_pool (v : variant) : st :=
+  run v demo_cfg [ODelegate 0 [(0, 100)]; ODelegate 1 [(0, 100)]; OSlash HALF] demo_init.
 Theorem redeem_pro_rata_refuted :
-  exists c who amts s s', inv_supply s /\ undelegate c who amts s = Ok s' /\ ~ pro_rata_at s amts /\
+  exists c who amts s s', inv_supply s /\ undelegate tree_r1 c who amts s = Ok s' /\ ~ pro_rata_at s amts /\
     stake s' 0 = 0 /\ sbal s' 0 0 = 50 /\ sbal s' 1 0 = 100.
 Proof.
-  exists demo_cfg, 0, [(0, 100)], slashed_pool.
-  assert (K : is_ok (undelegate demo_cfg 0 [(0, 100)] slashed_pool) = true) by (vm_compute; reflexivity).
-  destruct (undelegate demo_cfg 0 [(0, 100)] slashed_pool) as [s'| |] eqn:E; try discriminate K. clear K.
+  exists demo_cfg, 0, [(0, 100)], (slashed_pool tree_r1).
+  assert (K : is_ok (undelegate tree_r1 demo_cfg 0 [(0, 100)] (slashed_pool tree_r1)) = true) by (vm_compute; reflexivity).
+  destruct (undelegate tree_r1 demo_cfg 0 [(0, 100)] (slashed_pool tree_r1)) as [s'| |] eqn:E; try discriminate K. clear K.
   exists s'. split; [|split; [reflexivity|split]].
   - apply share_supply_eq_book. intro d. reflexivity.
   - intro P. specialize (P 0 100 (or_introl eq_refl)). vm_compute in P. apply P. reflexivity.
-  - apply undelegate_fields in E. destruct E as (_ & _ & ->). vm_compute. repeat split.
+  - apply undelegate_fields in E. destruct E as (pc & R & _ & _ & ->). vm_compute in R. inversion R; subst pc.
+    vm_compute. repeat split.
 Qed.
+(* with the pro-rata conversion the same redeemer must give up ALL his 100 shares for 50 stake, also after a
+   second slash (non-vacuity of redeem_pro_rata in a twice-slashed pool) *)
+Example redeem_pro_rata_after_two_slashes :
+  let s := run tree_r2 demo_cfg [OSlash HALF] (slashed_pool tree_r2) in
+  stake s 0 = 50 /\ shares s 0 = 200 /\
+  redeem_coins tree_r2 s [(0, 25)] = Ok [(0, 100)] /\ is_ok (undelegate tree_r2 demo_cfg 0 [(0, 26)] s) = false.
+Proof. vm_compute. repeat split. Qed.
 
 (* a stranger collects a matured undelegation (variant without the owner comparison) *)
 Definition matured_state : st :=
-  run as_is demo_cfg [ODelegate 0 [(0, 500)]; OUndelegate 0 [(0, 500)]; OAdvance 604800] demo_init.
+  run tree_r0 demo_cfg [ODelegate 0 [(0, 500)]; OUndelegate 0 [(0, 500)]; OAdvance 604800] demo_init.
 Theorem claim_owner_refuted :
   exists s s' u, find_undel 1 (undels s) = Some u /\ u_owner u = 0 /\
-    claim as_is 5 1 s = Ok s' /\ nbal s' 5 0 = nbal s 5 0 + 500 /\
-    (exists e, claim as_is 0 1 s' = Err e).
+    claim tree_r0 5 1 s = Ok s' /\ nbal s' 5 0 = nbal s 5 0 + 500 /\
+    (exists e, claim tree_r0 0 1 s' = Err e).
 Proof.
   exists matured_state.
-  assert (K : is_ok (claim as_is 5 1 matured_state) = true) by (vm_compute; reflexivity).
-  destruct (claim as_is 5 1 matured_state) as [s'| |] eqn:E; try discriminate K. clear K.
+  assert (K : is_ok (claim tree_r0 5 1 matured_state) = true) by (vm_compute; reflexivity).
+  destruct (claim tree_r0 5 1 matured_state) as [s'| |] eqn:E; try discriminate K. clear K.
   exists s'. pose proof E as E'. apply claim_spec in E'. destruct E' as (u & F & _ & _ & _ & ->).
   exists u. split; [exact F|]. vm_compute in F. inversion F; subst u. split; [reflexivity|]. split; [reflexivity|].
   split; [vm_compute; reflexivity|]. eexists. vm_compute. reflexivity.
 Qed.
 
-(* five blocks, validator 0 proposes and signs each, 4000 fees per block, begin + end blocker:
-   as the tree is nobody is ever credited; with the repaired end rule the proposer and the delegator are *)
-Definition one_block : list op := [OFees [(0, 4000)]; OBegin 5 [0; 1] 0 true 0; OEnd].
-Definition five_blocks : list op :=
-  ODelegate 0 [(0, 1000)] :: one_block ++ one_block ++ one_block ++ one_block ++ one_block.
+(* five blocks, validator 0 proposes and signs each, 4000 fees per block, begin + end blocker *)
+Definition one_block (sg : bool) : list op := [OFees [(0, 4000)]; OBegin 5 [(0, sg); (1, true)] 0 true 0; OEnd].
+Definition five_blocks (sg : bool) : list op :=
+  ODelegate 0 [(0, 1000)] :: one_block sg ++ one_block sg ++ one_block sg ++ one_block sg ++ one_block sg.
 Theorem signing_proposer_credited_refuted :
-  let s := run as_is demo_cfg five_blocks demo_init in
+  let s := run tree_r0 demo_cfg (five_blocks true) demo_init in
   nbal s 100 0 = 0 /\ rew s 0 0 = 0 /\ stake s 0 = 1000 /\ treas s 0 = 20000 /\ votes s = [].
 Proof. vm_compute. repeat split. Qed.
-Theorem signing_proposer_credited_when_repaired :
-  let s := run repaired demo_cfg five_blocks demo_init in
-  0 < nbal s 100 0 /\ 0 < rew s 0 0.
+Example signing_proposer_credited_nonvacuous :
+  let s := run tree_r1 demo_cfg (five_blocks true) demo_init in 0 < nbal s 100 0 /\ 0 < rew s 0 0.
+Proof. vm_compute. repeat split. Qed.
+
+(* "by its signing record": validator 0 proposes every block but NEVER signs; the tree records a vote for it
+   anyway and pays it; with signers-only votes it gets nothing *)
+Theorem signing_record_refuted :
+  let s := run tree_r1 demo_cfg (five_blocks false) demo_init in
+  count_votes 0 (votes s) = 4 /\ 0 < nbal s 100 0 /\ 0 < rew s 0 0.
+Proof. vm_compute. repeat split. Qed.
+Example signing_record_repaired :
+  let s := run tree_r2 demo_cfg (five_blocks false) demo_init in
+  count_votes 0 (votes s) = 0 /\ nbal s 100 0 = 0 /\ rew s 0 0 = 0 /\ count_votes 1 (votes s) = 4.
+Proof. vm_compute. repeat split. Qed.
+
+(* a delegator redeems 300 of his 1000: he still holds 700 shares but is no delegator any more and the
+   following blocks credit him nothing (the other delegator gets everything); the registry supply drifts *)
+Definition partial_redeem : list op :=
+  [ODelegate 0 [(0, 1000)]; ODelegate 1 [(0, 1000)]; OUndelegate 0 [(0, 300)]] ++ one_block true ++ one_block true ++ one_block true.
+Theorem delegator_dropped_refuted :
+  let s := run tree_r1 demo_cfg partial_redeem demo_init in
+  sbal s 0 0 = 700 /\ dels s = [1] /\ rew s 0 0 = 0 /\ 0 < rew s 1 0.
+Proof. vm_compute. repeat split. Qed.
+Example delegator_kept_when_repaired :
+  let s := run tree_r2 demo_cfg partial_redeem demo_init in
+  sbal s 0 0 = 700 /\ dels s = [0; 1] /\ 0 < rew s 0 0 /\ rew s 0 0 < rew s 1 0.
+Proof. vm_compute. repeat split. Qed.
+Theorem registry_supply_refuted :
+  let s := run tree_r2 demo_cfg partial_redeem demo_init in
+  ssup s 0 = 1700 /\ shares s 0 = 1700 /\ tsup s 0 = 2000.
 Proof. vm_compute. repeat split. Qed.
 
 (* stake caps 1/2 + 1/2, full signing record, 6 units of fees: validator 3 + delegators 2 + 2 = 7 > 6 *)
 Theorem credited_le_allocation_refuted :
-  let s0 := run as_is demo_cfg [ODelegate 0 [(0, 1000); (1, 1000)]; OSetVotes [(0, 7); (0, 8); (0, 9); (0, 10)];
+  let s0 := run tree_r1 demo_cfg [ODelegate 0 [(0, 1000); (1, 1000)]; OSetVotes [(0, 7); (0, 8); (0, 9); (0, 10)];
                                 OFees [(1, 6)]] demo_init in
-  let s := run as_is demo_cfg [OAllocate true 0] s0 in
+  let s := run tree_r1 demo_cfg [OAllocate true 0] s0 in
   fee s0 1 - treas s0 1 = 6 /\ nbal s 100 1 - nbal s0 100 1 = 3 /\ rew s 0 1 - rew s0 0 1 = 4.
 Proof. vm_compute. repeat split. Qed.
 
 (* non-vacuity of the invariants: a reachable state with stake, shares, an undelegation and rewards *)
 Example busy_state_nonvacuous :
-  let s := run repaired demo_cfg (five_blocks ++ [OUndelegate 0 [(0, 300)]; OSendShares 0 1 [(0, 200)]]) demo_init in
+  let s := run tree_r2 demo_cfg (five_blocks true ++ [OUndelegate 0 [(0, 300)]; OSendShares 0 1 [(0, 200)]]) demo_init in
   inv_supply s /\ inv_unslashed s /\ ids_bounded s /\ shares s 0 = 700 /\ sbal s 1 0 = 200 /\ List.length (undels s) = 1%nat.
 Proof.
   split; [apply share_supply_eq_book; intro; reflexivity|].
